@@ -214,6 +214,20 @@ static void m9(void) {
     check_thread(2, 3);
     VS_CHECK(ga.live_blocks == 0, "leak", "%llu allocation(s) still live (the refused launch must release its wrapper)", (unsigned long long)ga.live_blocks);
 }
+/* M10: aws_common_library_init is called a second time (documented as harmless: the library is initialised once) while a
+ * managed thread is running or has finished and parked itself for its lazy join: the next join-all still has to join it and
+ * reach count zero (added after a seeded change that re-initialised thread management on every init call) */
+static void m10(void) {
+    setup();
+    m_launch(0);
+    pthread_mutex_lock(&hm); /* schedule points at which the thread may run to its end first */
+    pthread_mutex_unlock(&hm);
+    pthread_mutex_lock(&hm);
+    pthread_mutex_unlock(&hm);
+    aws_common_library_init(aws_default_allocator());
+    VS_CHECK(aws_thread_join_all_managed() == AWS_OP_SUCCESS, "join-all-result", "join_all failed after a redundant aws_common_library_init");
+    check_managed_all(1);
+}
 /* M7: two threads are inside join-all at the same time (an explicit call racing library clean-up): both must return */
 static void *m7_joiner(void *a) {
     (void)a;
@@ -363,6 +377,7 @@ int main(int argc, char **argv) {
         {.name = "M8-timeout-reinit-then-join-all", .run = m8, .bound_quick = 3, .bound_thorough = 4},
         {.name = "M9-create-refused-while-join-all-waits", .run = m9, .bound_quick = 2, .bound_thorough = 3},
         {.name = "M7c-three-join-all-callers", .run = m7c, .bound_quick = 1, .bound_thorough = 2},
+        {.name = "M10-redundant-library-init-while-thread-parked", .run = m10, .bound_quick = 2, .bound_thorough = 3},
         {.name = "M7-two-join-all-callers", .run = m7, .bound_quick = 2, .bound_thorough = 3},
         {.name = "J1-joinable-at-exit", .run = j1, .bound_quick = 3, .bound_thorough = 5},
         {.name = "J3-refused-self-join-then-join", .run = j3, .bound_quick = 3, .bound_thorough = 5},
